@@ -128,6 +128,10 @@ func c11SingleWriter(c *core.Ctx) {
 			c.Check(R, keyf("types.(*HttpContext).Write/response.%s", cl.Name), cl.Pos(), held["HttpContext.mu"] && g.GuardedBy(cl.Loc, notDone), keyf("under c.mu and only when not done (held=%v)", keys(held)))
 		}
 		c.Need(R, "raw response writes in HttpContext.Write", n, 2)
+		for _, cl := range w.CallsTo("types.(*HttpContext).IsDone") {
+			held := g.HeldAt(cl.Loc)
+			c.Check(R, "types.(*HttpContext).Write/IsDone-tested-under-mu", cl.Pos(), held["HttpContext.mu"], "the already-answered test and the write are one critical section: tested outside the lock, a second writer that waited for the mutex writes a second response")
+		}
 		fl := false
 		for _, cl := range w.Calls() {
 			if cl.Deferred && cl.Key == "types.(*HttpContext).Flush" && g.GuardedBy(cl.Loc, notDone) {
